@@ -29,7 +29,7 @@ META = {
         "two-stage equality (exact, then 1e-9 relative tolerance)",
     ],
     "stubs": ["sparse products on symbolic data -> SymSparse"],
-    "outside": ["simplex grids (gmsh)", "3 or more fractures", "non-zero boundary fluxes and sources"],
+    "outside": ["simplex grids (gmsh)", "non-matching grids other than the two refinement-ratio pairs listed in CONFIGS", "3 or more fractures", "non-zero boundary fluxes and sources"],
 }
 
 CONFIGS = {
@@ -42,12 +42,17 @@ CONFIGS = {
     "energy/1/compressible": ("MassAndEnergyBalance", [1], 0.5),
     "energy/2/compressible": ("MassAndEnergyBalance", [0, 1], 0.5),
     "energy/1/incompressible": ("MassAndEnergyBalance", [1], 0.0),
+    # non-matching fracture / mortar grids (fracture refinement ratio, interface refinement ratio)
+    "flow/1/compressible/nonmatching-1-2": ("SinglePhaseFlow", [1], 0.5, (1, 2)),
+    "flow/1/compressible/nonmatching-4-2": ("SinglePhaseFlow", [1], 0.5, (4, 2)),
+    "energy/1/compressible/nonmatching-1-2": ("MassAndEnergyBalance", [1], 0.5, (1, 2)),
 }
 
 
 def shards(tier, seed):
     if tier == "quick":
-        names = ["flow/0/compressible", "flow/1/compressible", "flow/1/incompressible", "energy/1/compressible"]
+        names = ["flow/0/compressible", "flow/1/compressible", "flow/1/incompressible", "energy/1/compressible",
+                 "flow/1/compressible/nonmatching-1-2"]
     else:
         names = list(CONFIGS)
     return [{"config": n} for n in names]
@@ -69,12 +74,15 @@ def build_model(name):
     import logging
 
     import porepy as pp
-    from porepy.applications.md_grids.model_geometries import SquareDomainOrthogonalFractures
+    from porepy.applications.md_grids.model_geometries import (NonMatchingSquareDomainOrthogonalFractures,
+                                                               SquareDomainOrthogonalFractures)
 
     logging.disable(logging.CRITICAL)
-    base, fracs, compr = CONFIGS[name]
+    base, fracs, compr = CONFIGS[name][:3]
+    ratios = CONFIGS[name][3] if len(CONFIGS[name]) > 3 else None
+    Geometry = NonMatchingSquareDomainOrthogonalFractures if ratios else SquareDomainOrthogonalFractures
 
-    class M(SquareDomainOrthogonalFractures, getattr(pp, base)):
+    class M(Geometry, getattr(pp, base)):
         def meshing_arguments(self):
             return {"cell_size": 0.5}
 
@@ -110,6 +118,8 @@ def build_model(name):
         },
         "time_manager": pp.TimeManager([0.0, 1.0], 0.5, constant_dt=True),
     }
+    if ratios:
+        params["fracture_refinement_ratio"], params["interface_refinement_ratio"] = ratios
     m = M(params)
     m.prepare_simulation()
     _CACHE[name] = m
